@@ -81,6 +81,7 @@ NAMED = {
     "new-glob-match": (_base_project, [[W("d1/z.dat", "z")], [X("d1/x.dat")]]),
     "output-deleted": (_base_project, [[X("o1.txt")]]),
     "output-tampered": (_base_project, [[W("o2.txt", "tampered")]]),
+    "STALE-new-match-then-directory-moved": (_base_project, [[W("d1/z.dat", "z"), {"op": "move", "src": "d1", "dst": "d9"}]]),
     "D10d-file-in-new-directory": (_wild_project, [[W("d5/x.dat", "x")]]),
     "D15-undeclared-input-appears": (_undeclared_project, [[W("nothere.txt", "N")]]),
 }
